@@ -67,6 +67,11 @@ chk("C17",
     "Seeded exploration plus, in sweep runs, exhaustive enumeration of the crash points of one search (reported separately in the evidence).",
     SEARCH_NOTE + " Crash points are packet boundaries (the only place the library checks its time limit and the only state a user can pickle).", "6.17")
 
+chk("C19",
+    "deterministic simulation: expand_verified / expand_comb_class (inner time-sliced searches over a forest DB) run under a jitter clock with stalls, backward steps and time-limit interrupts, on originals produced by simulated searches under every rule DB; result and original are checked by the C01/C02 validators, identity and immutability checks",
+    "Seeded exploration over (world, outer/inner packs, rule DB, inner slicing, interrupts).",
+    SEARCH_NOTE + " SpecificationNotFound from an expansion is accepted only when the inner pack is masked (the world cannot then confirm that a specification exists), so a broken retry-with-reverse path is only seen through wrong or invalid results, not through a missing one.", "6.19")
+
 NA.update({
  "C07": "pure function of (specification, n, parameters): no clock, random source, I/O, ordering or restart point is involved, so there is no schedule or fault for a simulator to vary (DESIGN.md section 7)",
  "C09": "pure function of (rule form, n) given the children's term tables; nothing schedule-, fault- or history-dependent (DESIGN.md section 7)",
